@@ -406,6 +406,68 @@ func checkWindowOrder(c *Ctx, prop string) {
 		}
 	}
 	c.Require(prop+".O2 scan-most-recent-first", FuncKey(con), p.Pos(con.Pos()), "the window is scanned from index 0 upwards and the verdict of the first header by the same generator is returned", asc && firstMatch, "index: "+detail)
+	// O4: the window holds min(old+1, maxLength) headers after an insertion. A new slice stored
+	// as the window has that length; a path that keeps the old slice (shifting in place) is
+	// taken only where the old window is already full (len >= maxLength). A window one short
+	// loses the header at its far end: if that was the generator's most recent one, the
+	// contradiction scan finds nothing to compare with.
+	{
+		const BV = "consensus/liskbft.BFTVotes"
+		ifc := factsOf(ins)
+		oldLen := Matcher{"len(old window)", func(t *Term) bool {
+			return t.Op == "call" && t.Sym == "builtin:len" && len(t.Args) == 1 && strings.HasSuffix(t.Args[0].String(), ".blockBFTInfos")
+		}}
+		maxP := IsParam(2)
+		stores := storesToField(ins, BV, "blockBFTInfos")
+		for _, st := range stores {
+			mk, isMk := valueRoot(st.Val).(*ssa.MakeSlice)
+			okLen, det := false, "stored window is not a fresh slice"
+			if isMk {
+				lt := ifc.Term(mk.Len)
+				det = "length " + lt.String()
+				ls := lt.String()
+				isMin := lt.Op == "call" && (strings.HasPrefix(lt.Sym, "collection/ints.Min") || lt.Sym == "builtin:min") && strings.Contains(ls, "builtin:len(p0.blockBFTInfos) + 1") && strings.Contains(ls, "p2")
+				plusOne := func() bool {
+					d := newLin()
+					d.add(linOf(lt), 1)
+					only := ""
+					for k := range d.Coef {
+						only = k
+					}
+					return len(d.Coef) == 1 && d.Coef[only] == 1 && d.Const == 1 && oldLen.Match(d.Atom[only])
+				}()
+				underRoom := ifc.EveryPathHas(st.Block(), func(f Fact) bool {
+					return f.IsCmp && f.Entails(CmpSpec{A: oldLen, B: maxP, Rel: LE, D: -1})
+				})
+				okLen = isMin || (plusOne && underRoom)
+			}
+			c.Require(prop+".O4 window-keeps-max-length", FuncKey(ins)+": new window", p.InstrPos(st), "the window stored after an insertion has min(len(old)+1, maxLength) entries", okLen, det)
+		}
+		isWinStore := func(in ssa.Instruction) bool {
+			for _, st := range stores {
+				if in == ssa.Instruction(st) {
+					return true
+				}
+			}
+			return false
+		}
+		if len(ins.Blocks) > 0 && len(ins.Blocks[0].Instrs) > 0 {
+			for _, r := range Returns(ins) {
+				if classifyReturn(ifc, r) == RetErr || r.Parent() != ins {
+					continue
+				}
+				// can this return be reached without storing a window?
+				if ifc.EveryPathHasOr(r.Block(), func(Fact) bool { return false }, isWinStore) || blockHas(r.Block(), isWinStore, r) {
+					continue
+				}
+				full := ifc.EveryPathHas(r.Block(), func(f Fact) bool {
+					return f.IsCmp && f.Entails(CmpSpec{A: oldLen, B: maxP, Rel: GE, D: 0})
+				})
+				c.Require(prop+".O4 window-keeps-max-length", FuncKey(ins)+": return without a new window", p.InstrPos(r), "the old slice is kept (shifted in place) only where it already holds maxLength entries", full, "")
+			}
+		}
+		c.MinInstances(prop+".O4 window-keeps-max-length", len(stores), 1)
+	}
 	// O3: the chain-level answer is the window scan's. Every successful return of the API
 	// entry hands back what contradicting() said about this header on the loaded window (or a
 	// constant under a branch that tested exactly that answer); an early "not contradicting"
